@@ -45,6 +45,9 @@ def isTerminal : Ev α → Bool
 def val? : Ev α → Option α
   | .next v => some v
   | _ => none
+def isComplete : Ev α → Bool
+  | .complete => true
+  | _ => false
 def map (f : α → β) : Ev α → Ev β
   | .next v => .next (f v)
   | .error e => .error e
@@ -58,6 +61,11 @@ end Ev
 def Grammar {α : Type} : List (Ev α) → Prop
   | [] => True
   | x :: xs => if x.isTerminal then xs = [] else Grammar xs
+
+/-- what a subscriber lets through: everything up to and including the first terminal -/
+def gateEv {α : Type} : List (Ev α) → List (Ev α)
+  | [] => []
+  | x :: xs => if x.isTerminal then [x] else x :: gateEv xs
 
 inductive SrcStatus
   | idle   -- not subscribed (yet)
@@ -94,8 +102,8 @@ structure Machine (σ α β : Type) where
       source (true for every operator here except ConcatAll with its synchronous outer source,
       whose callbacks call `subscriptions.Unsubscribe()` themselves) -/
   hotTeardown : Bool := true
-  /-- consumer side (recorders of inner observables): actions due after every processed entry of
-      the interleaving … -/
+  /-- consumer side (recorders of inner observables): actions due after every notification a
+      source has issued … -/
   tick : σ → σ := id
   /-- … and at the end of the run -/
   finish : σ → σ := id
@@ -139,23 +147,22 @@ def St.apply (hot : Bool) (s : St σ α β) (e : Eff σ α β) : St σ α β :=
   let s2 := if e.unsubAll || (hot && !s1.downOpen) then s1.releaseAll else s1
   e.subscribe.foldl St.subscribeOne s2
 
-/-- source `i` issues its next notification (if it has one) -/
+/-- source `i` issues its next notification (if it has one); afterwards the consumer's clock ticks -/
 def St.issue (m : Machine σ α β) (s : St σ α β) (i : Nat) : St σ α β :=
   match s.rest i with
   | [] => s
   | x :: r =>
     -- a source says nothing after its own terminal
     let s0 := { s with rest := upd s.rest i (if x.isTerminal then [] else r) }
-    match s.status i with
-    | .idle => s0
-    | .done => { s0 with drops := s0.drops ++ [.up i x] }
-    | .live =>
-      let s1 := if x.isTerminal then { s0 with status := upd s0.status i .done } else s0
-      s1.apply m.hotTeardown (m.step s.m i x)
+    let s' : St σ α β := match s.status i with
+      | .idle => s0
+      | .done => { s0 with drops := s0.drops ++ [Dropped.up i x] }
+      | .live =>
+        let s1 := if x.isTerminal then { s0 with status := upd s0.status i .done } else s0
+        s1.apply m.hotTeardown (m.step s.m i x)
+    { s' with m := m.tick s'.m }
 
-def St.feed (m : Machine σ α β) (s : St σ α β) (i : Nat) : St σ α β :=
-  let s' := s.issue m i
-  { s' with m := m.tick s'.m }
+def St.feed (m : Machine σ α β) (s : St σ α β) (i : Nat) : St σ α β := s.issue m i
 
 def scriptsFn (scripts : List (List (Ev α))) : Nat → List (Ev α) := fun i => scripts.getD i []
 
